@@ -66,3 +66,46 @@ Qed.
 (** the model itself, on literals, for one stream *)
 Example ex_hist_run : snd (run1 [5; 5; 1; 9] hist) = snd (run1 [] hist).
 Proof. vm_compute. reflexivity. Qed.
+
+(** ---------- the positional-hash item (kind 2): [lawful] is inhabited a third time (c03_ihash_lawful) ---------- *)
+Notation RepH := (Rep hsz hx ihs_agg Z.add hashagg ihs_pending).
+Example ex_fresh_hash : Fresh hsz hx ihs_agg hashagg ihs_pending (ihs_mk 5).
+Proof. apply ihs_fresh. Qed.
+(** the aggregate is order-sensitive: the fold of [10;20] is not the fold of [20;10] *)
+Example ex_hash_order : hashf [10; 20] = 38046 /\ hashf [20; 10] = 10541 /\ hashagg [10; 20] <> hashagg [20; 10].
+Proof. repeat split. discriminate. Qed.
+(** merge(singleton 10, singleton 20): whichever root wins, the root aggregate is the hash of [10;20] *)
+Example ex_hash_merge : forall p q,
+  option_map ihs_agg (item (merge ihs_update ihs_push (single (ihs_mk 10) p) None (single (ihs_mk 20) q) None))
+  = Some (hashagg [10; 20]).
+Proof.
+  intros p q.
+  pose proof (c03_merge_rep _ _ _ _ _ _ _ _ _ _ _ _ _ ihs_lawful (single (ihs_mk 10) p) (single (ihs_mk 20) q) [10] [20]
+                (Rep_single hsz hx ihs_agg Z.add hashagg ihs_pending (ihs_mk 10) p (ihs_fresh 10))
+                (Rep_single hsz hx ihs_agg Z.add hashagg ihs_pending (ihs_mk 20) q (ihs_fresh 20))) as H.
+  destruct (c03_first_last_collect_size _ _ _ _ _ _ _ _ _ _ _ _ _ ihs_lawful _ _ H) as (_ & _ & _ & _ & Hagg).
+  exact Hagg.
+Qed.
+(** c03_history on the hash item: build [1;2;3;4], add 5 to the middle range [2;3], read the hash of the middle and of
+    the whole; every priority stream gives the outputs of the list specification *)
+Definition hhist : list cop :=
+  [CFrom 1; CInsert 0 1 2; CInsert 0 2 3; CInsert 0 3 4; CAgg 0;
+   CSplitAt 0 3; CSplitAt 0 1; CMod 2 (MAdd 5); CAgg 2; CMerge 1 2; CMerge 1 0; CAgg 0; CCollect 0; CRemove 0 0; CAgg 0].
+Example ex_hhist_fresh : Forall (op_fresh hsz hx ihs_agg hashagg ihs_pending) (map to_op2 hhist).
+Proof. repeat constructor; apply ihs_fresh. Qed.
+Example ex_hhist_spec : spec_outputs 2 hhist =
+  Some [OUnit; OUnit; OUnit; OUnit; OAgg (Some (hashf [1; 2; 3; 4])); OUnit; OUnit; OUnit; OAgg (Some (hashf [7; 8]));
+        OUnit; OUnit; OAgg (Some (hashf [1; 7; 8; 4])); OList [1; 7; 8; 4]; ORemoved 1; OAgg (Some (hashf [7; 8; 4]))].
+Proof. vm_compute. reflexivity. Qed.
+Example ex_hhist_model : forall ps, Some (model_outputs 2 ps hhist) = spec_outputs 2 hhist.
+Proof.
+  intros ps. unfold model_outputs, spec_outputs, run2, srun2.
+  destruct (srun hx Z.add hashagg [] (map to_op2 hhist)) as [[sst outs]|] eqn:E; [|discriminate (f_equal (option_map snd) E)].
+  destruct (c03_history _ _ _ _ _ _ _ _ _ _ _ _ _ ihs_lawful ps (map to_op2 hhist) sst outs ex_hhist_fresh E) as [H _].
+  unfold run_outputs in H. rewrite H. reflexivity.
+Qed.
+(** the model itself, on literals: two priority streams that build different shapes, same outputs *)
+Example ex_hhist_run : model_outputs 2 [5; 5; 1; 9] hhist = model_outputs 2 [4; 3; 2; 1] hhist
+  /\ run_final ihs_update ihs_push hsz ihs_modify hx ihs_agg [5; 5; 1; 9] (map to_op2 hhist)
+     <> run_final ihs_update ihs_push hsz ihs_modify hx ihs_agg [4; 3; 2; 1] (map to_op2 hhist).
+Proof. split; [vm_compute; reflexivity|]. vm_compute. discriminate. Qed.
